@@ -81,8 +81,8 @@ Section Reduction.
   | ALocal c i lo k lo' k' :
       nth_error (thrs c) i = Some ([], lo, k) -> lstep (lo, k) (lo', k') ->
       astep c i (mkcfg (objs c) (vupd (thrs c) i ([], lo', k')))
-  | ASection c i lo m k lo' k' ob' :
-      nth_error (thrs c) i = Some ([], lo, Acq m Ex :: k) ->
+  | ASection c i lo m md k lo' k' ob' :
+      nth_error (thrs c) i = Some ([], lo, Acq m md :: k) ->
       solos m (lo, k, objs c m) (lo', Rel m :: k', ob') ->
       astep c i (mkcfg (oset (objs c) m ob') (vupd (thrs c) i ([], lo', k'))).
 
@@ -99,12 +99,13 @@ Section Reduction.
   | arun_nil c : arun c [] c
   | arun_snoc c s c' i c'' : arun c s c' -> astep c' i c'' -> arun c (s ++ [i]) c''.
 
-  (* ---- the discipline: the code of a thread is a sequence of exclusive critical sections, each touching only the
-     fields of its own lock, with no access outside a section (what [single_section] + sync.Mutex give for the
-     exported store methods); [MOut] = holding nothing, [MIn m] = inside the section on m *)
-  Inductive mphase := MOut | MIn (m : L).
+  (* ---- the discipline: the code of a thread is a sequence of critical sections that are not nested, each touching
+     only the fields of its own lock, writing only when the lock is held exclusively, with no access outside a
+     section (what [single_section] + [well_locked] give for the exported store methods); [MOut] = holding nothing, [MIn m md] = inside the section on m (md = Ex: Lock, may read and write; md = Sh: RLock,
+     may only read) *)
+  Inductive mphase := MOut | MIn (m : L) (md : mode).
   Definition mphase_eqb (a b : mphase) : bool :=
-    match a, b with MOut, MOut => true | MIn m, MIn m' => leqb m m' | _, _ => false end.
+    match a, b with MOut, MOut => true | MIn m md, MIn m' md' => leqb m m' && mode_eqb md md' | _, _ => false end.
 
   Fixpoint msec (ph : mphase) (s : stmt L F) : option (option mphase) :=
     match s with
@@ -125,17 +126,17 @@ Section Reduction.
                    | Some (Some p1) => if mphase_eqb p1 ph then Some (Some ph) else None
                    | None => None
                    end
-    | Acq m Ex => match ph with MOut => Some (Some (MIn m)) | MIn _ => None end
-    | Acq m Sh => None
-    | Rel m => match ph with MIn m' => if leqb m m' then Some (Some MOut) else None | MOut => None end
-    | Rd f | Wr f => match ph with MIn m => if leqb (guard f) m then Some (Some ph) else None | MOut => None end
+    | Acq m md => match ph with MOut => Some (Some (MIn m md)) | MIn _ _ => None end
+    | Rel m => match ph with MIn m' _ => if leqb m m' then Some (Some MOut) else None | MOut => None end
+    | Rd f => match ph with MIn m _ => if leqb (guard f) m then Some (Some ph) else None | MOut => None end
+    | Wr f => match ph with MIn m Ex => if leqb (guard f) m then Some (Some ph) else None | _ => None end
     | Block _ => Some (Some ph)
-    | Return => match ph with MOut => Some None | MIn _ => None end
+    | Return => match ph with MOut => Some None | MIn _ _ => None end
     end.
 
   Fixpoint msec_cont (ph : mphase) (k : list (stmt L F)) : bool :=
     match k with
-    | [] => match ph with MOut => true | MIn _ => false end
+    | [] => match ph with MOut => true | MIn _ _ => false end
     | s :: k' => match msec ph s with
                  | None => false
                  | Some None => true
